@@ -140,6 +140,7 @@ func main() {
 			steeredCase(j+1, *seed*7+int64(j), senc)
 			steeredLoadCase(j+1, *seed*11+int64(j), senc)
 			steeredFailedFlushCase(j+1, *seed*13+int64(j), senc)
+			steeredSameChangeCase(j+1, *seed*17+int64(j), senc)
 		}
 	case "replay-map":
 		enc, done := openOut(*out)
